@@ -896,24 +896,24 @@ func (c *ctx) protoFacts() {
 	c.lean.WriteString("/-- `StartProtocol`: the client's handshake and the flags it insists on -/\n")
 	c.emitShape("shape_proto_StartProtocol", "protoStartProtocol", sh, fd != nil)
 
-	// ---- RemoteSSH.GetChunk: the session goes back into the pool whatever the result
+	// ---- RemoteSSH.GetChunk: the session goes back into the pool whatever the result.  Extracted by meaning
+	// (sshpoolfacts.go: local names normalised, a deferred put-back counted where it runs, hooks skipped), so that a
+	// behaviour-preserving rewrite gives the same shape
 	fd = c.funcDecl(c.files, "RemoteSSH", "GetChunk")
 	sh = nil
 	if fd != nil {
-		for _, st := range fd.Body.List {
-			switch t := st.(type) {
-			case *ast.AssignStmt:
-				if ue, ok := t.Rhs[0].(*ast.UnaryExpr); ok && ue.Op == token.ARROW {
-					sh = append(sh, "take")
-				}
-				if len(callsIn(t, "RequestChunk")) > 0 {
-					sh = append(sh, "RequestChunk")
-				}
-			case *ast.SendStmt:
+		l, _ := c.sshpoolGetChunk(c.sshpoolFields())
+		for _, o := range l {
+			switch o {
+			case "take":
+				sh = append(sh, "take")
+			case "request":
+				sh = append(sh, "RequestChunk")
+			case "put":
 				sh = append(sh, "put-back")
-			case *ast.ReturnStmt:
+			case "return-result":
 				sh = append(sh, "return")
-			case *ast.IfStmt, *ast.DeferStmt:
+			default:
 				sh = append(sh, "other")
 			}
 		}
